@@ -2,6 +2,10 @@ package h
 
 import (
 	"fmt"
+	"testing"
+	"time"
+
+	"pgregory.net/rapid"
 )
 
 // C10 — every invocation gets a live context and has all its cleanups run, LIFO.
@@ -21,6 +25,14 @@ func scenarioC10(rc *RunCtx) {
 	pf.MinFail, pf.MaxFail = 0, 3
 	pf.CustomFail = 20
 	prog := GenProg(t, pf)
+	switch t.Weighted("c10.leg", 7, 2, 2) {
+	case 1:
+		scenarioC10Example(rc, prog)
+		return
+	case 2:
+		scenarioC10Fuzz(rc, prog)
+		return
+	}
 	fl := genFlags(t, 20)
 	cc := genClockChoice(t, fl.ShrinkTime, 5, 2, 1, 3, 0)
 	name := genName(t, false)
@@ -28,6 +40,19 @@ func scenarioC10(rc *RunCtx) {
 	rc.Sample = fmt.Sprintf("%v clock=%v verdict=%s invocations=%d waiters=%d\n%s", fl, cr.Clock, cr.Verdict, len(cr.W.Invs), cr.W.WaitersMade, prog)
 	rc.Key = MixSeed(HashString(prog.String()), fl.Seed, uint64(fl.Checks), uint64(cr.Clock.Kind), uint64(cr.Clock.K))
 	judgeBrackets(rc, cr, "C10")
+	if failedVerdict(cr) && !fl.NoFailFile && len(newFailFiles(cr)) == 1 {
+		// the invocation kind "fail-file replay": run the same test again over the same directory
+		f2 := fl
+		f2.NoFailFile = true
+		r2 := RunCheck(prog, RunOpt{Name: name, Dir: cr.Dir, Flags: f2, Clock: ClockPolicy{Kind: ClkFrozen}})
+		rc.Note(r2)
+		judgeBrackets(rc, r2, "C10")
+		for _, inv := range r2.W.Invs {
+			if inv.Phase == "failfile" && (len(inv.CleanReg) > 0 || len(inv.Ctxs) > 0) {
+				rc.Inc("probe.bracket_in_phase.failfile")
+			}
+		}
+	}
 	nclean, nctx := 0, 0
 	kinds := map[string]bool{}
 	for _, inv := range cr.W.Invs {
@@ -134,4 +159,106 @@ func judgeBrackets(rc *RunCtx, cr *CheckRun, rule string) {
 	if cr.WaitersLeaked != 0 {
 		rc.V(viol(rule+".R5", "waiter-leaked", "%d of %d goroutines waiting on T.Context().Done() were never released", cr.WaitersLeaked, w.WaitersMade))
 	}
+}
+
+// scenarioC10Example: Generator.Example drives Custom generator functions (with cleanups, contexts, parked waiters,
+// skips that make Custom retry) on a T that has no TB at all.
+func scenarioC10Example(rc *RunCtx, prog *Prog) {
+	t := rc.T
+	if len(prog.Customs) == 0 {
+		prog.Customs = append(prog.Customs, &CustomSpec{ID: 0, NDraw: 2, Max: 9, Vars: []int{prog.NVars, prog.NVars + 1}, SkipIf: &Cond{Var: prog.NVars, Op: OpMod, M: 3, C: 0}, Cleanup: true, Ctx: true, Park: true})
+		prog.NVars += 2
+	}
+	c := prog.Customs[t.Pick("c10.ex.custom", len(prog.Customs))]
+	c.FailIf = nil // Example has no way to report a failure; the bracket is what is judged
+	seed := t.Int("c10.ex.seed", 0, 1<<20)
+	w := NewWorld("example", ClockPolicy{Kind: ClkFrozen}, false)
+	in := NewInterp(w, prog)
+	in.env = &Env{vals: make([][2]int64, prog.NVars+2), set: make([]bool, prog.NVars+2)}
+	cr := &CheckRun{W: w, In: in, Prog: prog, Name: "example"}
+	spec := &GenSpec{K: "custom", Cust: c}
+	wrapped := &GenSpec{K: []string{"custom", "filter_even", "oneof"}[t.Pick("c10.ex.wrap", 3)], A: 3, Sub: spec, Cust: c}
+	func() {
+		defer func() {
+			if r := recover(); r != nil {
+				cr.BubblePanic = fmt.Sprint(r)
+			}
+		}()
+		synctestRun(func() {
+			w.initChans()
+			func() {
+				defer func() {
+					if r := recover(); r != nil {
+						w.EscapedStr = fmt.Sprint(r) // Example asserts when it cannot generate a value: not a bracket matter
+					}
+				}()
+				g := in.buildInt(wrapped)
+				for i := 0; i < 3; i++ {
+					_ = g.Example(seed + i)
+				}
+			}()
+			cr.finishWaiters(synctestWait)
+		})
+	}()
+	for _, inv := range w.Invs {
+		inv.Phase = "example"
+	}
+	rc.Inc("leg.example")
+	for _, inv := range w.Invs {
+		if len(inv.CleanReg) > 0 || len(inv.Ctxs) > 0 {
+			rc.Inc("probe.bracket_in_phase.example")
+		}
+	}
+	rc.Inc("checks_run")
+	rc.Add("invocations", len(w.Invs))
+	rc.Sample = fmt.Sprintf("Example leg: %v x3 from seed %d, %d Custom invocations, waiters=%d", wrapped, seed, len(w.Invs), w.WaitersMade)
+	rc.Tracef("%s", rc.Sample)
+	rc.Key = MixSeed(HashString(wrapped.String()), uint64(seed))
+	rc.Nontriv = len(w.Invs) > 0
+	rc.MixHash(uint64(len(w.Invs)))
+	judgeBrackets(rc, cr, "C10")
+}
+
+// scenarioC10Fuzz: the MakeFuzz entry point with arbitrary bytes (outside any bubble: a real *testing.T is needed).
+func scenarioC10Fuzz(rc *RunCtx, prog *Prog) {
+	t := rc.T
+	n := t.Int("c10.fz.len", 0, 400)
+	r := NewRNG(t.Draw("c10.fz.sub", 1<<30))
+	data := make([]byte, n)
+	small := t.Chance("c10.fz.small_words", 60)
+	for i := range data {
+		data[i] = byte(r.Next())
+		if small && i%8 >= 2 {
+			data[i] = 0 // small 64-bit words decode into sensible lengths and choices
+		}
+	}
+	w := NewWorld("fuzz", ClockPolicy{Kind: ClkFrozen}, false)
+	w.initChans()
+	in := NewInterp(w, prog)
+	cr := &CheckRun{W: w, In: in, Prog: prog, Name: "fuzz"}
+	curT.Run("fuzzleg", func(ft *testing.T) {
+		rapid.MakeFuzz(in.Prop)(ft, data)
+	})
+	cr.finishWaiters(func() { time.Sleep(2 * time.Millisecond) })
+	for _, inv := range w.Invs {
+		if inv.Custom {
+			inv.Phase = "custom"
+		} else {
+			inv.Phase = "fuzz"
+		}
+	}
+	rc.Inc("leg.makefuzz")
+	rc.Inc("checks_run")
+	rc.Add("invocations", len(w.Invs))
+	rc.Sample = fmt.Sprintf("MakeFuzz leg: %d bytes, %d invocations\n%s", n, len(w.Invs), prog)
+	rc.Tracef("%s", rc.Sample)
+	rc.Key = MixSeed(HashString(prog.String()), HashString(string(data)))
+	rc.Nontriv = len(w.Invs) > 0
+	rc.MixHash(uint64(len(w.Invs)))
+	for _, inv := range w.Invs {
+		if len(inv.CleanReg) > 0 || len(inv.Ctxs) > 0 {
+			rc.Inc("probe.bracket_in_phase." + inv.Phase)
+		}
+	}
+	judgeBrackets(rc, cr, "C10")
 }
